@@ -14,7 +14,8 @@ VARS = {"c01": None,
 
 
 def run(ck):
-    cpucheck.run(ck, "C03", "cpu-c03", NOTE["c03"], variants=VARS["c03"])
+    cpucheck.run(ck, "C03", "cpu-c03", NOTE["c03"], variants=VARS["c03"],
+                 theorems=["MajoranaVerif.Props.C03"])
 
 
 def replay(ck, path):
